@@ -240,7 +240,7 @@ def run(ctx):
             viol.append(("model/impl mismatch: the model (name check present) predicts an error for a hostile node name, the implementation returned " + v["outcome"], {"case": case, "result": v}, "__corr__"))
 
     # ---------------------------------------------------------------- B. model correspondence + oracle
-    nmodel = 1500 if ctx.thorough() else 300
+    nmodel = 6000 if ctx.thorough() else 600
     cases = [model_case(rng) for _ in range(nmodel)]
     if ctx.replay:
         cases = []
@@ -297,7 +297,7 @@ def run(ctx):
                 samples.append({"case": c["line"], "impl": v["state"], "model": mstate})
 
     # ---------------------------------------------------------------- C. end-to-end oracle
-    ne2e = 400 if ctx.thorough() else 40
+    ne2e = 1500 if ctx.thorough() else 80
     e2e = []
     for i in range(ne2e):
         e2e.append("e2e %d %d %d %d %d %d %d %d" % (rng.randint(1, 10 ** 9), rng.randint(0, 1), rng.randint(0, 1), rng.randint(0, 1), rng.randint(0, 1),
